@@ -524,6 +524,15 @@ func doCheck(cfg *CheckCfg, tier, patch string, seed int64, scratch string, star
 			default:
 				racePass = fmt.Sprintf("clean (%d executions)", res.Evaluations)
 			}
+			// results compared by the free-running bodies themselves (real executions of the real code)
+			if res != nil && !strings.Contains(log, "WARNING: DATA RACE") {
+				for _, rv := range res.Violations {
+					if strings.Contains(rv.Key, "|free-running|") {
+						racePass = "wrong result in the free-running pass"
+						m.violations = append(m.violations, rv)
+					}
+				}
+			}
 		}
 	}
 
@@ -568,7 +577,7 @@ func doCheck(cfg *CheckCfg, tier, patch string, seed int64, scratch string, star
 	unconfirmed := 0
 	for i, v := range fresh {
 		rp := writeReplay(id, v)
-		if i >= 3 || strings.HasSuffix(v.Key, "|data-race") || os.Getenv("VERIF_NO_CONFIRM") != "" {
+		if i >= 3 || strings.HasSuffix(v.Key, "|data-race") || strings.Contains(v.Key, "|free-running|") || os.Getenv("VERIF_NO_CONFIRM") != "" {
 			confirmed = append(confirmed, v)
 			replayPaths = append(replayPaths, rp)
 			continue
